@@ -426,4 +426,4 @@ def main(chk: Check) -> None:
     if not os.environ.get("C20_SKIP_FIXED"):  # audit switch: measure the generator alone
         for c in _fixed():
             chk.case("dispatch", c, run_case)
-    chk.explore("dispatch", _case, run_case, quick=600, thorough=12000)
+    chk.explore("dispatch", _case, run_case, quick=1200, thorough=12000)
